@@ -131,7 +131,11 @@ namespace rpc
         slice(off_t off, size_t len) : offset(off), length(len) {}
 
         string anchor(const buffer& base_buffer) const {
-            assert(offset + length <= base_buffer.size());
+            // offset and length may come from the wire: a slice that does not lie
+            // inside the base buffer anchors to the empty string
+            if (offset < 0 || (size_t)offset > base_buffer.size() ||
+                length > base_buffer.size() - (size_t)offset)
+                return {};
             return {(char*) base_buffer.addr() + offset, length};
         }
 
